@@ -369,12 +369,15 @@ def K3 (cfg : Cfg) (tr : Trace) (endT : Int) : Bool :=
 def svcsOf (tr : Trace) : List Svc := (regs tr).map (·.2)
 
 def answersTo (cfg : Cfg) (tr : Trace) (h : Nat) (a : Int) (src : Nat) (qu : Bool) (s : Svc) : Bool :=
-  (sends tr).any fun sd => sd.h == h && a - cfg.respBefore ≤ sd.t && sd.t ≤ a + cfg.respAfter && posFull s sd.items
+  (sends tr).any fun sd => sd.h == h && a - cfg.respBefore ≤ sd.t && sd.t ≤ a + cfg.respAfter && pos s sd.items
                             && (sd.dst.isNone || (qu && sd.dst == some src))
 
 /-- K4 (C03, C11, C12): a PTR question for type(`s`) that does not list `s`, processed by the owner while `s` is
-registered, is answered with PTR(`s`) + SRV, TXT, addresses within `[a - 1000, a + 1200]` by multicast (or, QU, by
-unicast to the asker).  The window opens 1 s *before* the arrival because the listener ignores a byte-identical datagram
+registered, is answered with PTR(`s`), TTL > 0, within `[a - 1000, a + 1200]` by multicast (or, QU, by unicast to the asker).
+The *datagram* need not be complete: a reply that exceeds one packet is split by `DNSOutgoing.packets()` — pointers first, SRV / TXT /
+addresses spilling into the next datagram — so "PTR + SRV, TXT, address in one datagram" (`posFull`) is not what correct code
+satisfies for large answers (observed on the unchanged tree with 3 services of 900-byte TXT); convergence only needs the pointer.
+The responder *model* does send the complete set in one message (`Bridge.fresh_sent` proves `posFull` of the message's items).  The window opens 1 s *before* the arrival because the listener ignores a byte-identical datagram
 that follows one it processed less than a second earlier (that one was answered). -/
 def K4 (cfg : Cfg) (tr : Trace) (endT : Int) : Bool :=
   (dlvs tr).all fun e => !(e.t + cfg.respAfter ≤ endT) || e.items.all fun it => match it with
